@@ -67,11 +67,16 @@ def check(ctx):
         o = ctx.ob(f'{n}_dates_encode_reservations', 'R8',
                    f"{n}: computed start/end are day + booked share of that day (same resource/day/selector as the reservations)", floor=2)
         ctx.guarded(o, lambda o, ps=ps: sched_fill.encoding(ctx, o, ps, strict_zero=False))
+        ctx.guarded(o, lambda o, ps=ps: fill_result_not_searched(ctx, o, ps))
 
     # what is reserved is measured against the capacity the resource reports: it must be the calendar's answer for the date asked,
     # not a remembered one (C17's obligation, reused as in C08/C09)
     from . import c17 as _c17
     _c17._none_zero(ctx)
+    # a resource that reports the calendar's answer rounded breaks C17 / C03 (more than the calendar offers is booked); the sum of
+    # the reservations and the date shares are measured against what the resource reports, so for C04 it is not decided (as in C08/C09)
+    from .c08 import rounded_capacity_is_not_decided
+    rounded_capacity_is_not_decided(ctx)
 
     # the schedulers work on wbs.clone(): the copy of a task must carry the estimate and spent of the original (C10's obligation)
     from . import c10 as _c10
@@ -80,7 +85,8 @@ def check(ctx):
                "on the copy", floor=1)
     ctx.guarded(o, lambda o: _c10._fields(ctx, o))
     # only the data fields the remaining work is computed from concern C04; how custom attributes are copied is C10's / C14's clause
-    o.refuted = [f_ for f_ in o.refuted if 'estimate' in f_.msg or 'spent' in f_.msg]
+    # (and the milestone flag, should it become a private field: a copy that loses it is scheduled as a working leaf)
+    o.refuted = [f_ for f_ in o.refuted if 'estimate' in f_.msg or 'spent' in f_.msg or 'milestone' in f_.msg]
 
     psf = PassShape(ctx, FWD)
     o = ctx.ob('forward_first_day_and_today', 'R8',
@@ -204,6 +210,33 @@ def remaining(ctx, o, ps: PassShape):
                     o.refute(ps.f, st, st, f"the default {attr} is not filled in before the remaining work is computed")
                 else:
                     o.site(ps.f, st, f"{attr} defaults to {unmangle(want)} when None")
+
+
+def fill_result_not_searched(ctx, o, ps: PassShape):
+    """the date the fill loop hands back after booking lies in the last (forward) / first (backward) reserved day: a result taken
+    from an availability search (`resource.get_nearest_availability_date(..)`, the scheduler's own nearest-date search) is the
+    next day with capacity, which can lie any number of days away from the reserved day"""
+    S = ps.S
+    prog = ctx.prog
+    fill = prog.func(S['fill'])
+    search = prog.func(S['search'])
+    cfg = cfg_of(fill)
+    exf = Expander(prog, fill, ctx.typer)
+    rcs = [cfg.node_containing(c_) for c_ in sched.reserve_calls(ctx, fill)]
+    for r in [n for n in walk_no_nested(fill.node) if isinstance(n, ast.Return) and n.value is not None]:
+        rn = cfg.node_of(r)
+        if rn is None or not any(c_ is not None and cfg.can_reach(c_, rn) for c_ in rcs):
+            continue
+        v = exf.expand(r.value)
+        hit = [x for x in ast.walk(v) if isinstance(x, ast.Call) and isinstance(x.func, ast.Attribute) and
+               (x.func.attr == 'get_nearest_availability_date' or unmangle(x.func.attr) == search.name)]
+        if hit:
+            conds = facts.node_conditions(prog, fill, r, ctx.typer, expand=False)
+            where = (" when " + ', '.join(facts.cond_texts(conds))[:80]) if conds else ""
+            o.refute(fill, r, r, f"after the work was booked the fill hands back `{src(hit[0])[:90]}`{where}: the result of a search for the next day "
+                                 f"with capacity, which can lie days away from the {'last' if S['dir'] == 1 else 'first'} reserved day - "
+                                 + ("the end is not within the 24 hours following the last reserved day's midnight" if S['dir'] == 1 else
+                                    "the start is not within the first reserved day"))
 
 
 def default_estimate_stored(ctx, o, S):
